@@ -20,7 +20,11 @@ from . import env
 from . import probes
 
 HTML5LIB_DIR = os.path.join(env.REPO, "html5lib") + os.sep
+import xml as _xml  # noqa: E402
+XML_DIR = os.path.dirname(os.path.abspath(_xml.__file__)) + os.sep
 MAX_STEPS = 1200000
+WORKER_WALL_S = 120
+DEBUG_TRACE = None   # set to a list to record every traced step (debugging of the scheduler itself)
 
 
 class StepBudgetExceeded(BaseException):
@@ -42,6 +46,8 @@ _MUTABLE = (dict, list, set, bytearray)
 _IMMUTABLE_GLOBALS = (type, types.ModuleType, types.FunctionType, types.BuiltinFunctionType, types.MethodType, str, bytes, int, float,
                       complex, tuple, frozenset, bool, type(None), re.Pattern, property, staticmethod, classmethod, type(Ellipsis))
 _shared = {"built": False}
+from . import coldstate as _coldstate  # noqa: E402
+_learned = _coldstate.learned()
 
 
 def _build_shared_index():
@@ -160,6 +166,14 @@ def frame_is_hot(frame):
     code = frame.f_code
     if code in _shared["hot_codes"]:
         return True
+    # where shared state turned out to live in earlier runs of this process (coldstate.restore() had to undo it): a memo
+    # kept as attributes of a function, a name added to or rebound in a module or class at run time
+    ln = _learned
+    if ln["codes"] or ln["names"]:
+        if code in ln["codes"]:
+            return True
+        if ln["names"].intersection(code.co_names):
+            return True
     cache = _shared["code_hot"]
     static = cache.get(code)
     if static is None:
@@ -235,8 +249,11 @@ class Baton(object):
             p_op = p / 4.0
 
             def local(frame, event, arg):
+                if DEBUG_TRACE is not None and event in ("line", "opcode"):
+                    DEBUG_TRACE.append((w.tid, frame.f_code.co_name, frame.f_lineno, event, hot))
                 if event != "line":
-                    if event != "opcode":
+                    if event != "opcode" or not baton.opcodes:
+                        # (a code object instrumented for per-bytecode events by an earlier run keeps delivering them)
                         return local
                     # hot frames are traced per bytecode: a window between two
                     # instructions of one source line is a pre-emption point too
@@ -274,12 +291,27 @@ class Baton(object):
         local_hot = make_local(True)
         local_cold = make_local(False)
 
+        def budget_only(frame, event, arg):
+            # code of the tree libraries html5lib builds on (xml.dom.minidom, xml.etree): no pre-emption there, but its
+            # line events count towards the step budget - a tree corrupted by a cross-thread leak (a cycle) makes that
+            # code loop for ever, which must end as a liveness violation, not as a wall-clock harness error
+            if event == "line":
+                baton.total_steps += 1
+                if baton.total_steps > MAX_STEPS:
+                    baton.overrun = True
+                    raise StepBudgetExceeded()
+            return budget_only
+
         def tracer(frame, event, arg):
             if baton.overrun:
                 raise StepBudgetExceeded()
-            if frame.f_code.co_filename.startswith(prefix):
+            fn = frame.f_code.co_filename
+            if fn.startswith(XML_DIR):
+                return budget_only
+            if fn.startswith(prefix):
                 if frame_is_hot(frame):
-                    frame.f_trace_opcodes = baton.opcodes
+                    if baton.opcodes:
+                        frame.f_trace_opcodes = True
                     return local_hot
                 return local_cold
             return None
@@ -377,8 +409,10 @@ class Baton(object):
                 w = alive[self.rng.randrange(len(alive))] if len(alive) > 1 else alive[0]
             self._cur_steps = 0
             w.sem.release()
-            if not self.sched_sem.acquire(timeout=120):
-                raise RuntimeError("baton: worker %d did not yield within 120 s (harness watchdog)" % w.tid)
+            if not self.sched_sem.acquire(timeout=WORKER_WALL_S):
+                import faulthandler
+                faulthandler.dump_traceback(all_threads=True)
+                raise RuntimeError("baton: worker %d did not yield within %d s (harness watchdog)" % (w.tid, WORKER_WALL_S))
             # a quantum that ended because the worker finished is "run to completion"
             self.taken.append((w.tid, -1 if w.done else self._cur_steps))
         for w in self.workers:
@@ -521,6 +555,33 @@ def run_api_op(op, private=None):
     raise ValueError(kind)
 
 
+def _prime_opcode_events(fns):
+    prefix = HTML5LIB_DIR
+
+    def local(frame, event, arg):
+        return local
+
+    def tracer(frame, event, arg):
+        if frame.f_code.co_filename.startswith(prefix):
+            try:
+                if frame_is_hot(frame):
+                    frame.f_trace_opcodes = True
+            except Exception:
+                pass
+            return local
+        return None
+    old = sys.gettrace()
+    sys.settrace(tracer)
+    try:
+        for fn in fns:
+            try:
+                fn()
+            except BaseException:
+                pass
+    finally:
+        sys.settrace(old)
+
+
 _WARM_DOC = "<!DOCTYPE html><title>t</title><p a=b>x&amp;y<table><tr><td>z</table><!--c--><svg><g/></svg>"
 
 
@@ -547,12 +608,49 @@ def _warm_up():
 _ref_memo = {}
 
 
+def _function_index():
+    """qualified name -> function, for every function / method defined in html5lib."""
+    idx = {}
+    for mname, mod in list(sys.modules.items()):
+        if mod is None or not (mname == "html5lib" or mname.startswith("html5lib.")) or ".tests" in mname:
+            continue
+        for v in list(vars(mod).values()):
+            if isinstance(v, types.FunctionType) and v.__module__ == mname:
+                idx["%s:%s" % (mname, v.__qualname__)] = v
+            elif isinstance(v, type) and v.__module__ == mname:
+                for av in vars(v).values():
+                    f = getattr(av, "__func__", av)
+                    if isinstance(f, types.FunctionType):
+                        idx["%s:%s" % (mname, f.__qualname__)] = f
+    return idx
+
+
+def learned_export():
+    """What this process has learned about where shared state lives, in a form that can be stored in a replay file."""
+    names = sorted(_learned["names"])
+    by_code = {f.__code__: k for k, f in _function_index().items()}
+    funcs = sorted(by_code[c] for c in _learned["codes"] if c in by_code)
+    return names, funcs
+
+
+def learned_import(names, funcs):
+    _learned["names"].update(names or ())
+    if funcs:
+        idx = _function_index()
+        for k in funcs:
+            f = idx.get(k)
+            if f is not None:
+                _learned["codes"].add(f.__code__)
+
+
 def execute(case):
     import json
     from . import c12
     probes.install()
     probes.reset()
     probes.set_state_fn(None)
+    # a replayed case carries what the process that found it knew about shared state (it decides which frames are hot)
+    learned_import(case.get("learned_names"), case.get("learned_funcs"))
     stats = {"faults": {}, "probes": {}, "steps": 0, "reach": [], "nontrivial": False, "fault_free": True}
     res = {"ok": True, "oracle": None, "detail": "", "known": None, "stats": stats}
     # defined cache state at the start of every run
@@ -569,6 +667,14 @@ def execute(case):
         return fn
     fns = [make_fn(t) for t in case["threads"]]
     opcodes = bool(case.get("opcodes", False))
+    if opcodes:
+        # CPython instruments a code object for per-bytecode events the first time a frame of it asks for them, and the
+        # frame that asks may miss its own first events: run the operations once, alone, asking for them, so that in the
+        # real run every hot frame delivers them from its first instruction - in this process and in a fresh one alike
+        _prime_opcode_events(fns)
+        c12.cold_restart()
+        if not case["cold"]:
+            warm_up()
     if case.get("quanta") is not None:
         b = Baton(fns, quanta=[tuple(q) for q in case["quanta"]], opcodes=opcodes)
     else:
@@ -576,6 +682,7 @@ def execute(case):
                   opcodes=opcodes)
     results, errors = b.run()
     res["quanta"] = [list(q) for q in b.taken]
+    res["_case"] = case
     stats["steps"] = b.total_steps
     P = probes.PROBES
     P["preemptions"] += b.preemptions
@@ -628,11 +735,18 @@ def execute(case):
                     return _fail(res, "pristine", "thread %d op %d (%s): got %s in this process, %s in a pristine interpreter"
                                  % (tid, oi, op["op"], brief(out, 200), brief(pr, 200)))
     stats["probes"] = dict(P)
+    res.pop("_case", None)
     return res
 
 
 def _fail(res, oracle, detail):
     res["stats"]["probes"] = dict(probes.PROBES)
+    if res.get("_case") is not None and res.get("quanta") is not None:
+        # the exact schedule and the hotness knowledge it was taken under: what the parent and the replay file need
+        names, funcs = learned_export()
+        ex = dict(res["_case"], quanta=res["quanta"], learned_names=names, learned_funcs=funcs)
+        res["explicit_case"] = ex
+    res.pop("_case", None)
     res["ok"] = False
     res["oracle"] = oracle
     res["detail"] = detail
@@ -643,7 +757,9 @@ def shrinks(case):
     # 1. make the schedule explicit (the quanta actually taken)
     if case.get("quanta") is None:
         r = execute(case)
-        if r.get("quanta") is not None:
+        if r.get("explicit_case") is not None:
+            yield r["explicit_case"]
+        elif r.get("quanta") is not None:
             yield dict(case, quanta=r["quanta"])
         return
     q = case["quanta"]
